@@ -39,6 +39,9 @@ var bases = []base{
 	{ID: "mini", Root: "Mini", Structs: []sdef{
 		{"Mini", []fdef{f("ID", "int32", "id"), f("Flag", "*bool", "flag"), f("Tags", "[]string", "tags"), f("Opt", "*int64", "opt")}},
 	}},
+	{ID: "untagged", Root: "U", Structs: []sdef{
+		{"U", []fdef{f("A", "int32", ""), f("B", "int32", ""), f("C", "*string", ""), f("D", "[]int64", ""), f("E", "[]int64", "")}},
+	}},
 	{ID: "nestopt", Root: "T", Structs: []sdef{
 		{"T", []fdef{f("F0", "int32", ""), f("F1", "*T1", "")}},
 		{"T1", []fdef{f("G0", "int32", ""), f("G1", "*int32", "")}},
@@ -171,6 +174,46 @@ func decorations(b base, thorough bool) []decor {
 					st3 := append(cloneStructs(st), sdef{"Emb", []fdef{run[0], {Type: "Emb2", Embedded: true}}}, sdef{"Emb2", run[1:]})
 					out = append(out, decor{Desc: fmt.Sprintf("embedsplit@%s.%d-%d", s.Name, i, j), Structs: st3})
 				}
+			}
+		}
+	}
+	// grouped declarations ("A, b T"): an unexported name declared together
+	// with an exported one is still excluded, and grouping exported names
+	// equals declaring them one by one.  Only untagged fields (a tag would
+	// apply to every name of the group).
+	for si, s := range b.Structs {
+		for i, fd := range s.Fields {
+			if fd.Tag != "" || fd.Embedded {
+				continue
+			}
+			for _, hidden := range []string{"hidden", "x"} {
+				for _, order := range []string{"after", "before"} {
+					st := cloneStructs(b.Structs)
+					g := fd
+					if order == "after" {
+						g.Name = fd.Name + ", " + hidden
+					} else {
+						g.Name = hidden + ", " + fd.Name
+					}
+					st[si].Fields[i] = g
+					out = append(out, decor{Desc: fmt.Sprintf("grouped:%s:%s@%s.%d", hidden, order, s.Name, i), Structs: st})
+					if !thorough {
+						break
+					}
+				}
+				if !thorough {
+					break
+				}
+			}
+			if i+1 < len(s.Fields) && s.Fields[i+1].Tag == "" && !s.Fields[i+1].Embedded && s.Fields[i+1].Type == fd.Type {
+				st := cloneStructs(b.Structs)
+				g := fd
+				g.Name = fd.Name + ", " + s.Fields[i+1].Name
+				fs := append([]fdef(nil), st[si].Fields[:i]...)
+				fs = append(fs, g)
+				fs = append(fs, st[si].Fields[i+2:]...)
+				st[si].Fields = fs
+				out = append(out, decor{Desc: fmt.Sprintf("groupedpair@%s.%d", s.Name, i), Structs: st})
 			}
 		}
 	}
@@ -370,7 +413,7 @@ func Main() {
 		ID:    "C14",
 		Level: "exploration",
 		Rule: "program enumeration: for each base struct definition (mini, three nested shapes, document, person without embedding) every insertion, at every field position of every struct of the shape, of (i) an unexported field (names hidden/x/_x/non-ASCII lower case) or (ii) an exported field tagged parquet:\"-\", over a menu of Go types (primitives, pointers, slices, arrays, maps, channels, funcs, interfaces, inline and named structs), " +
-			"and (iii) every replacement of a contiguous run of sibling fields by an embedded struct (also two deep and split), and every pair of identical runs in two different structs replaced by one shared embedded type (the same struct embedded at two places of the tree). Each decorated program is generated, compiled and run next to its base: for every value with <= s constructor nodes (and pairs) the two writers' files must be byte-identical (excluded fields set to garbage), and reading into fresh decorated structs must leave excluded fields zero and return the values. " +
+			"and (iii) every replacement of a contiguous run of sibling fields by an embedded struct (also two deep and split), every pair of identical runs in two different structs replaced by one shared embedded type (the same struct embedded at two places of the tree), and (iv) grouped declarations: an unexported name declared together with an exported one (F, hidden T) and adjacent same-typed fields declared as one group (A, B T). Each decorated program is generated, compiled and run next to its base: for every value with <= s constructor nodes (and pairs) the two writers' files must be byte-identical (excluded fields set to garbage), and reading into fresh decorated structs must leave excluded fields zero and return the values. " +
 			"quick uses one name and five types; thorough the full product. distinct = decorated program",
 		Assumptions: []string{
 			"one decoration per program",
